@@ -359,7 +359,7 @@ Qed.
 Lemma FI_fop s o : FI s -> FI (fstep s (FOp o)).
 Proof.
   intros H. destruct s as [p thr lock hand inv]. unfold FI in *. cbn [f_p f_thr f_lock f_hand] in H.
-  destruct o as [k d g out|h out|h t|d| | |dt]; cbn [fstep].
+  destruct o as [k d g out|h out|h t|d| | |dt|h]; cbn [fstep].
   - exact H.
   - cbn [f_p f_hand f_thr f_lock f_inval]. destruct (nth_error (p_handles p) h) as [e|] eqn:Hh; [|exact H].
     destruct (existsb (fun x => snd x =? e) hand) eqn:Hex; [|exact H].
@@ -400,6 +400,19 @@ Proof.
     destruct (is_expired u (p_now s0) || negb (gen_current s0 u) && negb (survives u)); auto.
     apply FI_remove_close; auto.
   - exact H.
+  - (* Remove(own key, handle) by a caller that holds the handle *)
+    cbn [f_p f_hand f_thr f_lock f_inval]. destruct (nth_error (p_handles p) h) as [e|] eqn:Hh; [|exact H].
+    destruct (existsb (fun x => snd x =? e) hand) eqn:Hex; [|exact H].
+    apply existsb_exists in Hex. destruct Hex as (x & Hin & Hx). apply Nat.eqb_eq in Hx.
+    assert (Np : ~ prot thr e). { rewrite <- Hx. eapply not_prot_hand; eauto. }
+    cbn [f_p f_thr f_lock f_hand pstep fst]. change C13_Consts.remove_checks_identity with true.
+    unfold ep_remove. rewrite Hh.
+    destruct (nth_error (p_eps p) e) as [u|] eqn:Hn; [|exact H].
+    destruct (opt_is (p_pool p (u_key u)) e) eqn:Ho.
+    + apply FI_remove_close; auto.
+    + destruct (ep_close_spec p e) as (C1 & C2 & _). rewrite C1, C2.
+      eapply FI_close_gen; eauto.
+      intros Hp. unfold opt_is in Ho. rewrite Hp, Nat.eqb_refl in Ho. discriminate.
 Qed.
 
 (* ------------------------------------------------------------------------------------------ *)
@@ -851,7 +864,7 @@ Proof. intros H. apply (f_equal (@length A)) in H. rewrite app_length in H. cbn 
 
 Lemma fop_hand s o : f_hand (fstep s (FOp o)) = f_hand s.
 Proof.
-  destruct o as [k d g out|h out|h t|d| | |dt]; cbn [fstep]; try reflexivity;
+  destruct o as [k d g out|h out|h t|d| | |dt|h]; cbn [fstep]; try reflexivity;
     (destruct (nth_error (p_handles (f_p s)) h) as [e|]; [|reflexivity];
      destruct (existsb (fun x => snd x =? e) (f_hand s)); reflexivity).
 Qed.
